@@ -1,7 +1,75 @@
-//! Envelopes — reference model (TODO).
+//! Envelopes. Doc (and <https://www.investopedia.com/terms/e/envelope.asp>):
+//!   a moving average of `source` (`ma`) shifted up and down by the relative size `k`:
+//!     upper bound = MA(source) · (1 + k),  lower bound = MA(source) · (1 − k).
+//! 3 values (documented order): `Upper bound`, `Lower bound`, raw `Source2` value.
+//! 1 signal: "appears when `Source2` value crosses bounds": `Source2` crosses the `upper bound` upwards:
+//!   full sell; `Source2` crosses the `lower bound` downwards: full buy.
 use super::*;
 
-/// returns None until the reference is written
-pub fn make(_cfg: &Cfg, _c0: &RC) -> Option<Box<dyn IndRef>> {
-	None
+/// How "crosses" is read.
+/// `true`  — literally, as an event: the signal appears on the step on which `Source2` gets beyond a bound
+///           it was not beyond on the previous step (this is what the doc comment says);
+/// `false` — as a level: the signal is present on every step on which `Source2` lies beyond a bound
+///           (this is what the implementation does; DESIGN.md Appendix A reading).
+const CROSSING_IS_AN_EVENT: bool = true;
+
+#[derive(Clone)]
+pub struct Envelopes {
+	src: String,
+	src2: String,
+	k: f64,
+	ma: Box<dyn rm::RefVV>,
+	was_above: bool,
+	was_below: bool,
+}
+
+/// the source as a plain number (for the state of the prehistory)
+fn src_f64(c: &RC, kind: &str) -> f64 {
+	match kind {
+		"close" => c.c,
+		"open" => c.o,
+		"high" => c.h,
+		"low" => c.l,
+		"hl2" => (c.h + c.l) * 0.5,
+		"tp" => (c.h + c.l + c.c) / 3.0,
+		"volume" => c.v,
+		"volumed_price" => (c.h + c.l + c.c) / 3.0 * c.v,
+		o => panic!("unknown source {o}"),
+	}
+}
+
+pub fn make(cfg: &Cfg, c0: &RC) -> Option<Box<dyn IndRef>> {
+	let src = cfg.src("source");
+	let src2 = cfg.src("source2");
+	let k = cfg.float("k");
+	// constant prehistory: the average of the source is the source, the bounds are source · (1 ± k)
+	let v0 = src_f64(c0, &src);
+	let p0 = src_f64(c0, &src2);
+	Some(Box::new(Envelopes {
+		ma: cfg.ma_ref("ma", source(c0, &src)),
+		was_above: p0 > v0 * (1.0 + k),
+		was_below: p0 < v0 * (1.0 - k),
+		src,
+		src2,
+		k,
+	}))
+}
+
+impl IndRef for Envelopes {
+	fn values(&mut self, c: &RC) -> Vec<Q> {
+		let v = self.ma.stepq(source(c, &self.src));
+		vec![v.scale(1.0 + self.k), v.scale(1.0 - self.k), source(c, &self.src2)]
+	}
+	fn signals(&mut self, _c: &RC, own: &[f64]) -> Vec<Sig> {
+		let (upper, lower, price) = (own[0], own[1], own[2]);
+		// † follows the implementation: the documentation does not say on which side a touch counts;
+		// "beyond a bound" is a strict comparison
+		let above = price > upper;
+		let below = price < lower;
+		let (sell, buy) = if CROSSING_IS_AN_EVENT { (above && !self.was_above, below && !self.was_below) } else { (above, below) };
+		self.was_above = above;
+		self.was_below = below;
+		vec![sig_sign(buy as i32 - sell as i32)]
+	}
+	indref!(Envelopes);
 }
